@@ -1,6 +1,7 @@
 import dbg, json, e7, sys
 P = dbg.load()
-spec=json.load(open('/verif/tables/e7_tables.json'))['parser']
+import os
+spec=json.load(open('/verif/tables/e7_tables.json'))[os.environ.get('E7DOM','parser')]
 A,agg=e7.run(P,spec)
 def summ(pat):
     for ctx,s in sorted(A.summ.items(), key=lambda x: str(x[0])):
